@@ -5,7 +5,8 @@ import numpy as np
 
 def get_klass_args(klass):
     import inspect
-    args, varargs, varkw, defaults = inspect.getargspec(klass.__init__)
+    spec = inspect.getfullargspec(klass.__init__)
+    args, defaults = spec.args, spec.defaults
     if defaults is None:
         return []
     keyword_args = args[-len(defaults):]
